@@ -48,7 +48,23 @@ def main():
             ctx = common.Ctx(a.prop, tier, seed + 7919 * k)
             print("# source drift in %d file(s) (%s): additional quick pass %d/%d with seed %d"
                   % (len(changed), ", ".join(changed[:4]), k + 1, passes, ctx.seed))
-        rc = mod.run(ctx)
+        try:
+            rc = mod.run(ctx)
+        except Exception:  # noqa
+            # The harness itself could not complete (typically: the implementation now raises / returns
+            # something of another shape at a place where the driver does not expect it).  The property is
+            # then not shown to hold on this run: report it as a violation whose replay names what broke.
+            tb = traceback.format_exc()
+            print(tb)
+            common.report_violation(ctx, "the correspondence run of %s could not be completed: %s" % (
+                a.prop, tb.strip().split("\n")[-1][:300]),
+                dict(kind="harness-exception", traceback=tb[-6000:], seed=ctx.seed, tier=ctx.tier),
+                key=None, found_input=False)
+            rc = common.finish(ctx, "proof", dict(
+                obligations=common.LAST_PO.get("obligations", 0), discharged=common.LAST_PO.get("discharged", 0),
+                checker_cmd=common.LAST_PO.get("checker_cmd", ""), trusted_base=common.TRUSTED_BASE_COMMON,
+                evaluations=0, distinct_nontrivial=0, rule="run aborted by an exception in the harness, see the replay file",
+                samples=[], traces_validated_against_impl=0, explanation=tb[-2000:]), [])
         if rc != 0:
             break
     if changed:
